@@ -131,3 +131,60 @@ Definition run_master (input : str) : str :=
                    | Panic => paren "re" [lit "panic"]
                    end ])
     (parse_master input).
+
+(* ---------- op `tag <Type> <text>`: parse, dump, print, re-parse ---------- *)
+Definition tag_result {A} (parse : str -> res A) (print : A -> str) (dump : A -> str) (s : str) : str :=
+  dRes (fun v =>
+    let t := print v in
+    paren "t" [ dump v; fld "text" dS t;
+                match parse t with
+                | Ok v2 => paren "re" [lit "ok"; dump v2]
+                | Err => paren "re" [lit "err"]
+                | Panic => paren "re" [lit "panic"]
+                end ]) (parse s).
+Definition dInf (i : ExtInf) : str := paren "inf" [dN (inf_dur i); dO dS (inf_title i)].
+Definition dF (name : string) (x : fval) : str := paren name [dN (f32_bits x)].
+Definition dPV (v : N) : str := paren "pv" [dN v].
+Definition dMethod (m : N) : str := if m =? 0 then lit "aes128" else lit "sampleaes".
+Definition dHdcp (h : N) : str := if h =? 0 then lit "type0" else lit "hnone".
+Definition print_iv (iv : IV) : str :=
+  match iv with
+  | IvAes bs => s_0x ++ hex_encode false bs
+  | IvNumber n => lit "InitializationVector::Number(" ++ print_uint n ++ [41]
+  | IvMissing => lit "InitializationVector::Missing"
+  end.
+Definition pmap_of (m : ExtXMap) : ExtXMap := m.
+Definition is_ty (ty : str) (n : string) : bool := str_eqb ty (lit n).
+Definition run_tag (ty : str) (s : str) : str :=
+  if is_ty ty "ExtInf" then tag_result parse_extinf print_extinf dInf s
+  else if is_ty ty "ExtXByteRange" then tag_result parse_xbyterange print_xbyterange dR s
+  else if is_ty ty "ByteRange" then tag_result parse_byte_range print_byte_range dR s
+  else if is_ty ty "ExtXKey" then tag_result parse_xkey print_xkey dXKey s
+  else if is_ty ty "ExtXMap" then tag_result parse_xmap print_xmap dMap s
+  else if is_ty ty "ExtXProgramDateTime" then tag_result parse_pdt print_pdt (fun p => paren "pdt" [dS p]) s
+  else if is_ty ty "ExtXDateRange" then tag_result parse_daterange print_daterange dDR s
+  else if is_ty ty "ExtXStart" then tag_result parse_start print_start dStart s
+  else if is_ty ty "ExtXMedia" then tag_result parse_xmedia print_xmedia dXM s
+  else if is_ty ty "VariantStream" then tag_result parse_variant print_variant dVS s
+  else if is_ty ty "ExtXSessionData" then tag_result parse_session_data print_session_data dSD s
+  else if is_ty ty "ExtXSessionKey" then tag_result parse_session_key print_session_key dKey s
+  else if is_ty ty "DecryptionKey" then tag_result parse_decryption_key print_decryption_key dKey s
+  else if is_ty ty "Channels" then tag_result parse_channels print_channels dCh s
+  else if is_ty ty "Resolution" then tag_result parse_resolution print_resolution (fun r => paren "x" [dN (fst r); dN (snd r)]) s
+  else if is_ty ty "Codecs" then tag_result (fun x => Ok (parse_codecs x)) print_codecs (fun c => paren "c" (map dS c)) s
+  else if is_ty ty "ClosedCaptions" then tag_result (fun x => Ok (parse_cc x)) print_cc dCC s
+  else if is_ty ty "Float" then tag_result parse_float print_f32 (dF "f") s
+  else if is_ty ty "UFloat" then tag_result parse_ufloat print_f32 (dF "uf") s
+  else if is_ty ty "InitializationVector" then tag_result parse_iv print_iv dIV s
+  else if is_ty ty "KeyFormat" then tag_result (fun x => Ok (parse_key_format x)) print_key_format dKF s
+  else if is_ty ty "KeyFormatVersions" then tag_result parse_kfv print_kfv (fun v => paren "v" (map dN v)) s
+  else if is_ty ty "ProtocolVersion" then tag_result parse_protocol_version print_protocol_version dPV s
+  else if is_ty ty "ExtXVersion" then tag_result parse_version (fun v => pfx_ExtXVersion ++ print_protocol_version v) dPV s
+  else if is_ty ty "PlaylistType" then tag_result parse_playlist_type print_playlist_type (fun t => dPT (Some t)) s
+  else if is_ty ty "MediaType" then tag_result (enum_parse enum_MediaType) (enum_print enum_MediaType) dMT s
+  else if is_ty ty "HdcpLevel" then tag_result (enum_parse enum_HdcpLevel) (enum_print enum_HdcpLevel) dHdcp s
+  else if is_ty ty "EncryptionMethod" then tag_result (enum_parse enum_EncryptionMethod) (enum_print enum_EncryptionMethod) dMethod s
+  else if is_ty ty "InStreamId" then tag_result (enum_parse enum_InStreamId) (enum_print enum_InStreamId) (enum_print enum_InStreamId) s
+  else if is_ty ty "Value" then tag_result parse_value print_value dValue s
+  else if is_ty ty "StreamData" then tag_result parse_stream_data print_stream_data dSDT s
+  else lit "badop".
